@@ -70,7 +70,8 @@ func genC13(t *rapid.T) C13Case {
 			}
 		}
 	}
-	steps := genHistory(t, d, HistOpts{MaxLen: 40, StateBias: 30, BurstMax: 2, NoPanic: true})
+	// the base history may contain panic taps itself (half of the cases): several panics with state changes between them
+	steps := genHistory(t, d, HistOpts{MaxLen: 40, StateBias: 30, BurstMax: 2, NoPanic: rapid.Bool().Draw(t, "basePanicFree")})
 	// legal insertion points: no complete up/down pair held (panic would be a third action)
 	legal := legalPanicPoints(d, steps)
 	at := legal[rapid.IntRange(0, len(legal)-1).Draw(t, "at")]
